@@ -10,6 +10,9 @@ t = time.time()
 st = collections.Counter()
 for ops in editworld.rename_scenarios():
     editworld.run_history(ops, out, st)
+for ops in editworld.slot_rename_scenarios():
+    editworld.run_history(ops, out, st, objrefs=True)
+    st["slot_rename_scenarios"] += 1
 print("time", round(time.time() - t, 1))
 for k in sorted(st): print(k, st[k])
 for d in out.disagreements[:4]:
